@@ -422,7 +422,7 @@ def run(chk):
         chk.violation("harness-build", "the correspondence harness does not build against /repo", {"log": out[-4000:]}, found_input=False)
         chk.coverage.update({"evaluations": 0})
         return
-    n = 60 if chk.tier == "quick" else 600
+    n = 120 if chk.tier == "quick" else 1000
     t0 = time.time()
     rc, out, err = vlib.harness_run("visual", ["c13", "--seed", chk.seed, "--n", n, "--tier", chk.tier], timeout=1500)
     cases = parse_output(out)
